@@ -267,3 +267,13 @@ def loop_counter(O):
                  "assumed-unreachable list with the cross-function invariant that protects it")
 def audit(O):
     run_audit(O, "C10")
+
+
+@obligation("C10/expansion-no-panic", profiles=("dev",),
+            desc="get_row sequences for a row of three input columns with every combination of Number and X entries (up to "
+                 "eight expanded rows): the expansion reaches generate_input_entries only with Number/Z entries in input "
+                 "columns - its unreachable!() arms are not reached and nothing panics")
+def expansion_no_panic(O):
+    from . import C05, dri
+    lay = C05.Layout("three inputs", ["in", "in", "in"], [2, 0, 1])
+    C05.run_layout(O, lay, 10, in_kinds=("Number", "X"), rep=dri.Rep({"family": "runtime"}, runtime_battery(), runtime_judge))
